@@ -592,8 +592,10 @@ impl EventGen for SpecsElement {
         }
         if let Some(inner_events) = self.0.inner_events(context) {
             context.in_specs = true;
-            process_events(inner_events, context)?;
+            let result = process_events(inner_events, context);
+            // (whatever became of the content: what follows is not in <specs>)
             context.in_specs = false;
+            result?;
         }
         Ok((OutputList::new(), None))
     }
